@@ -136,6 +136,16 @@ def _do(step, d, ext, idx):
         elif op == "open_only":
             f = md.open(path, "w", force_overwrite=step["fo"])
             f.close()
+        elif op == "bad_save":
+            base = LOWLEVEL.get(ext, ext)
+            t = _traj(first, 1)
+            if base == "mdcrd" and idx % 2:
+                t.unitcell_angles = np.array([[80.0, 95.0, 100.0]], dtype=np.float32)          # mdcrd holds rectangular boxes only
+                t.save(path, force_overwrite=False)
+            elif base == "pdb" and idx % 2:
+                t.save(path, force_overwrite=False, bfactors=np.zeros((3, 2)))                  # wrongly shaped b-factors
+            else:
+                t.save(path, force_overwrite=False, no_such_option=3)                           # an option no saver takes
         elif op == "load":
             _load(path, ext)
         elif op == "load_frame":
@@ -214,7 +224,7 @@ def _replay_in(ext, tr, d):
         if step["ok"] and got != "ok":
             problems.append("operation failed though nothing stood in its way: %s" % got)
         if not step["ok"] and got == "ok":
-            problems.append("no error although the target exists and force_overwrite=False")
+            problems.append("no error although the target exists and force_overwrite=False" if step["op"] != "bad_save" else "an invalid save request was accepted")
         for k in KS:
             pre, post = _at(tr["pre"], k), _at(tr["post"], k)
             path = fname(k)
@@ -245,7 +255,7 @@ def _replay_in(ext, tr, d):
                         problems.append("overwritten file %s keeps a remnant of the old content: size %d, fresh %d" % (os.path.basename(path), _size(path), fs))
         extra = [x for x in sorted(os.listdir(d)) if x not in listing_before and x not in
                  [os.path.basename(fname(k)) for k in KS]]
-        if extra and step["op"] not in ("save", "open_w", "open_only"):
+        if extra and step["op"] not in ("save", "open_w", "open_only", "bad_save"):
             problems.append("read operation created files: %s" % extra)
     if not problems:
         return None
